@@ -11,6 +11,7 @@ CONSTANTS
   Repays = {1, 100000000}
   FixedSeizes = {1, 1000000}
   SeizeCap = 40000001
+  OpStates = {}
   MaxDepth = 2
 VIEW View
 CHECK_DEADLOCK FALSE
